@@ -470,6 +470,25 @@ def int_pow(a, b):
     return uf("pow", INT, INT, INT)(a, b)
 
 
+def real_pow(a, b):
+    """`**` in the real-number model: a small integral constant exponent is
+    repeated multiplication (exact); anything else is uninterpreted."""
+    b1 = z3.simplify(b)
+    n = None
+    if z3.is_int_value(b1):
+        n = b1.as_long()
+    elif z3.is_rational_value(b1) and b1.denominator_as_long() == 1:
+        n = b1.numerator_as_long()
+    if n is not None and 0 <= n <= 8:
+        r = z3.RealVal(1)
+        for _ in range(n):
+            r = r * a
+        return r
+    if b.sort() != REAL:
+        b = z3.ToReal(b)
+    return uf("powr", REAL, REAL, REAL)(a, b)
+
+
 def _py_floordiv(a, b):
     # Python floor division on ints via z3's Euclidean div
     q = a / b  # z3 Int '/' is div (Euclidean)
@@ -527,7 +546,7 @@ class SymNum:
     @staticmethod
     def _pow(a, b):
         if a.sort() == REAL:
-            return uf("powr", REAL, REAL, REAL)(a, b)
+            return real_pow(a, b)
         return int_pow(a, b)
 
     def __pow__(self, o, mod=None):
